@@ -188,6 +188,12 @@ for n in ([2, 5, 8] if Q else [2, 3, 5, 8, 13, 21]):
 for nf in ([1, 2, 3] if Q else [1, 2, 3, 4, 5]):
     n = int(rng.integers(2, 9))
     freqs = np.sort(rng.uniform(1e6, 10e6, nf))
+    if nf >= 2 and rng.random() < 0.6:
+        # the sampled frequencies may be listed in any order (e.g. high to low in a data file)
+        freqs = freqs[rng.permutation(nf)] if rng.random() < 0.5 else freqs[::-1].copy()
+        chk.count(frequency_order="not increasing")
+    else:
+        chk.count(frequency_order="increasing")
     data = {k: rng.standard_normal((nf, n, n)) + 1j * rng.standard_normal((nf, n, n)) for k in ("LL", "LT", "TL", "TT")}
     for keys in ([("LL",), ("LL", "TT"), ("LL", "LT", "TL", "TT")] if Q else
                  [c for r in range(1, 5) for c in itertools.combinations(("LL", "LT", "TL", "TT"), r)]):
@@ -221,11 +227,13 @@ for nf in ([1, 2, 3] if Q else [1, 2, 3, 4, 5]):
                 if nf == 1:
                     want = sub[k][0]
                 else:
-                    hi = int(np.clip(np.searchsorted(freqs, fr), 1, nf - 1))
+                    order = np.argsort(freqs)
+                    fs_ = freqs[order]
+                    hi = int(np.clip(np.searchsorted(fs_, fr), 1, nf - 1))
                     lo = hi - 1
-                    line = " ".join(fhex(x) for x in (freqs[lo], freqs[hi], 0.0, 1.0, fr))
+                    line = " ".join(fhex(x) for x in (fs_[lo], fs_[hi], 0.0, 1.0, fr))
                     w = unhex(drv.run([f"L {line}"])[0])            # model weight of the upper sample
-                    want = sub[k][lo] * (1 - w) + sub[k][hi] * w
+                    want = sub[k][order[lo]] * (1 - w) + sub[k][order[hi]] * w
                 if not np.allclose(res[k], want, rtol=0, atol=1e-9 * np.max(np.abs(sub[k]))):
                     chk.violation("data:freq_interp", "ScatFromData is not linear in frequency between its samples",
                                   {"numfreq": nf, "n": n, "key": k, "frequency": fr, "frequencies": freqs})
